@@ -10,6 +10,7 @@ import IrVerif.Lemmas.NamesIdem
 import IrVerif.Lemmas.NamesModel
 import IrVerif.Lemmas.NamesOwned
 import IrVerif.Lemmas.NamesRename
+import IrVerif.Lemmas.NamesGen
 namespace IrVerif.Names
 
 /-! ### C15_loop_terminates -/
@@ -375,6 +376,52 @@ theorem C15_scoped_of_well_owned (iv : Nat → List Nat) (t : Top) (hw : wellOwn
     (hd : (ownedLists iv t.tr).Pairwise DisjointL) : scopedB iv t.tr [] [] = true :=
   (scoped_of_wellOwned iv t.tr [] [] [] (fun _ h => h) (fun _ h => h) hw (fun _ _ _ _ h => by simp at h) hd).1
 
+/-- **C15_first_holder_keeps**: which of several values (nodes) carrying the same name keeps it.  Every list `L`
+of `allScopes` (values visible together) and of `allNodeScopes` (the nodes of one graph) is in the order in which
+NameFixPass visits its members (initializers of one graph never share a name, so their mutual order is
+immaterial).  Split `L` at any occurrence of `v`, `L = A ++ v :: B`, where `v` has a non-empty name:
+(1) if no member in front of `v` carried that name, `v` keeps it — the *first* holder is never renamed, whatever
+comes later; (2) if a member in front of `v` carried it (and this is `v`'s first occurrence), `v` is renamed.
+Together with `C15_namefix_keeps_unique` and `C15_namefix_post` this pins exactly which names change: those of
+unnamed objects and of every holder of a name but the first. -/
+theorem C15_first_holder_keeps (w : World) (tops : List Top) (wf : PassWF w tops) :
+    ∀ t ∈ tops,
+      (∀ L ∈ allScopes w.inits t.tr [], ∀ A v B, L = A ++ v :: B → truthy (w.vname v) = true →
+          ((∀ u ∈ A, w.vname u ≠ w.vname v) → (fixModel w tops).1.vname v = w.vname v)
+          ∧ (v ∉ A → (∃ u ∈ A, w.vname u = w.vname v) → (fixModel w tops).1.vname v ≠ w.vname v))
+      ∧ (∀ L ∈ allNodeScopes t.tr, ∀ A n B, L = A ++ n :: B → truthy (w.nname n) = true →
+          ((∀ m ∈ A, w.nname m ≠ w.nname n) → (fixModel w tops).1.nname n = w.nname n)
+          ∧ (n ∉ A → (∃ m ∈ A, w.nname m = w.nname n) → (fixModel w tops).1.nname n ≠ w.nname n)) := by
+  have hiv : ∀ g u, u ∈ w.inits g ↔ w.initOf u = some g := fun g u => wf.inits.mem_iff g u
+  intro t ht
+  have hf := fixModel_first w.inits tops w wf.inits hiv wf.each wf.disj t ht
+  have hp := fixModel_post w.inits tops w wf.inits hiv wf.each wf.disj t ht
+  exact ⟨fun L hL A v B e h1 => first_exact (hf.1 L hL) (hp.1 L hL).1.inj A v B e h1,
+    fun L hL A n B e h1 => first_exact (hf.2 L hL) (hp.2 L hL).1.inj A n B e h1⟩
+
+/-- **C15_namefix_call_first_holder_keeps**: the same for one `_fix_graph_names` call. -/
+theorem C15_namefix_call_first_holder_keeps (w : World) (t : Top) (hok : InitsOk w) (hcl : Closed w.initOf t)
+    (hsc : scopedB w.inits t.tr [] [] = true) (hnd : (allNodes t.body).Nodup) :
+    (∀ L ∈ allScopes w.inits t.tr [], ∀ A v B, L = A ++ v :: B → truthy (w.vname v) = true →
+        ((∀ u ∈ A, w.vname u ≠ w.vname v) → (fixTop w t).vname v = w.vname v)
+        ∧ (v ∉ A → (∃ u ∈ A, w.vname u = w.vname v) → (fixTop w t).vname v ≠ w.vname v))
+    ∧ (∀ L ∈ allNodeScopes t.tr, ∀ A n B, L = A ++ n :: B → truthy (w.nname n) = true →
+        ((∀ m ∈ A, w.nname m ≠ w.nname n) → (fixTop w t).nname n = w.nname n)
+        ∧ (n ∉ A → (∃ m ∈ A, w.nname m = w.nname n) → (fixTop w t).nname n ≠ w.nname n)) := by
+  have inv := fixTop_TInv hok hcl
+  have hiv : ∀ g u, u ∈ w.inits g ↔ w.initOf u = some g := fun g u => hok.mem_iff g u
+  have sc := fixTop_scopes hok hcl w.inits hiv hsc
+  have nd := fixTop_nodes inv.nr hnd
+  exact ⟨fun L hL A v B e h1 => first_exact (sc L hL).first (sc L hL).inj A v B e h1,
+    fun L hL A n B e h1 => first_exact (nd.1 L hL).first (nd.1 L hL).inj A n B e h1⟩
+
+/-- first holder: `t, t, t_1, t` — the first `t` stays, the later ones move past the reserved `t_1` -/
+example : ((List.range 4).map (fixModel
+      { vname := fun i => if i = 2 then some "t_1" else some "t", nname := fun _ => none, initOf := fun _ => none, dicts := fun _ => [] }
+      [{ gid := 0, isGraph := true, ins := [], outs := [],
+         body := .node 0 [] [0] .nil (.node 1 [] [1] .nil (.node 2 [] [2] .nil (.node 3 [] [3] .nil .nil))) }]).1.vname)
+    = [some "t", some "t_2", some "t_1", some "t_3"] := by decide
+
 /-! ## Part C — `convenience.rename_values` (with the backing tensors) -/
 
 /-- **C15_rename_values_atomic**: for *every* assignment (repeated values, swaps, cycles,
@@ -543,6 +590,173 @@ def exBody4 : Tr :=
 def exT4 : Top := { gid := 0, isGraph := true, ins := [], outs := [], body := exBody4 }
 example : scopedB exW4.inits exT4.tr [] [] = true
     ∧ ((List.range 4).map (fixModel exW4 [exT4]).1.vname) = [some "a", some "x", some "x_1", some "i"] := by
+  decide
+
+/-! ## Part B+ — NameFixPass with an arbitrary name generator and with backing tensors (`fixModelX`)
+
+`fixModelX gen w [] tops` is the pass run with the generator `gen` on a world with tensors (`constOf`, `tname`,
+`frozen` = the tensor refuses a new name).  The theorems of this part hold for **every** generator, every
+scoping and **every outcome** — also when the pass stops in the middle with an exception (a refusing tensor, an
+empty generated name for an initializer, a constant generator on an ill-scoped model).  The postcondition
+theorems of part B / B' apply to `fixModelX` through `C15_gen_refines_default`. -/
+
+/-- **C15_gen_step_fresh**: whatever base name `p` a generator answers, the name
+`_find_and_record_next_unique_name` derives from it is neither in the used set nor reserved (the loop terminates
+for every `p`: `C15_loop_terminates`), and it is empty exactly when the generator answered the empty string and
+the empty string is not taken.  So "the generator never answers the empty string" is the one hypothesis on a
+generator that "every object gets a non-empty name" needs, and it is necessary (`C15_gen_nonempty_necessary`);
+no hypothesis is needed for termination or freshness — a constant generator gives `c, c_1, c_2, …`. -/
+theorem C15_gen_step_fresh (p : String) (used res : List String) (c : Nat) :
+    (findUnique p used res c).1 ∉ used ∧ (findUnique p used res c).1 ∉ res
+    ∧ ((findUnique p used res c).1 = "" ↔ (p = "" ∧ "" ∉ used ∧ "" ∉ res)) := by
+  obtain ⟨h1, h2, h3⟩ := findUnique_spec p used res c
+  refine ⟨h1, h2, ?_⟩
+  rcases h3 with ⟨e, a, b⟩ | ⟨k, _, e, hin⟩
+  · rw [e]
+    constructor
+    · intro h; subst h; exact ⟨rfl, a, b⟩
+    · exact fun h => h.1
+  · rw [e]
+    constructor
+    · intro h; exact absurd h (sufName_ne_empty p k)
+    · rintro ⟨rfl, a, b⟩; exact absurd hin (by simp [a, b])
+
+/-- **C15_gen_ikey_preserved**: the initializer-key invariant is *preserved* by the pass — for every generator,
+every scoping, with or without refusing tensors, whether or not the pass raises: if every initializer dictionary
+is keyed by the current non-empty names on entry (the only place `InitsOk` is assumed) then so it is on exit,
+every value is an initializer of the same graph as before, every dictionary holds the same values, and the
+value-to-tensor links are untouched. -/
+theorem C15_gen_ikey_preserved (gen : NameGen) (w : TWorld) (tops : List Top) (hok : InitsOk w.toWorld) :
+    InitsOk (fixModelX gen w [] tops).w.toWorld
+    ∧ (fixModelX gen w [] tops).w.initOf = w.initOf
+    ∧ (∀ g u, u ∈ (fixModelX gen w [] tops).w.toWorld.inits g ↔ u ∈ w.toWorld.inits g)
+    ∧ (fixModelX gen w [] tops).w.constOf = w.constOf
+    ∧ (fixModelX gen w [] tops).w.frozen = w.frozen := by
+  obtain ⟨h1, h2, h3, h4⟩ := fixModelX_inv (KeyInv.step gen w) tops w [] ⟨hok, rfl, rfl, rfl⟩
+  refine ⟨h1, h2, ?_, h3, h4⟩
+  intro g u
+  show u ∈ ((fixModelX gen w [] tops).w.dicts g).map (·.2) ↔ u ∈ (w.dicts g).map (·.2)
+  rw [h1.mem_iff g u, hok.mem_iff g u]
+  show (fixModelX gen w [] tops).w.initOf u = some g ↔ _
+  rw [h2]
+
+/-- **C15_gen_tensor_follows**: the write-through of `Value.name` to the backing tensor, through the whole pass,
+for every generator and every outcome: each tensor either is untouched together with the names of all values it
+backs, or carries the current name of one of the values it backs; hence a tensor that backs a single value and
+carried that value's name on entry carries the value's name on exit (also after a partial run). -/
+theorem C15_gen_tensor_follows (gen : NameGen) (w : TWorld) (tops : List Top) (hok : InitsOk w.toWorld) :
+    (∀ t, ((fixModelX gen w [] tops).w.tname t = w.tname t
+            ∧ ∀ v, w.constOf v = some t → (fixModelX gen w [] tops).w.vname v = w.vname v)
+          ∨ ∃ v, w.constOf v = some t ∧ (fixModelX gen w [] tops).w.tname t = (fixModelX gen w [] tops).w.vname v)
+    ∧ (∀ v t, w.constOf v = some t → (∀ u, w.constOf u = some t → u = v) → w.tname t = w.vname v →
+        (fixModelX gen w [] tops).w.tname t = (fixModelX gen w [] tops).w.vname v) := by
+  obtain ⟨⟨_, h⟩, _⟩ := fixModelX_inv (Q := fun x => TensorInv w x ∧ InitsOk x.toWorld) (TensorInv.step gen w) tops w []
+    ⟨TensorInv.refl w, hok⟩
+  refine ⟨h, ?_⟩
+  intro v t hv huniq hsync
+  rcases h t with ⟨a, b⟩ | ⟨u, hu, e⟩
+  · rw [a, hsync, b v hv]
+  · rw [e, huniq u hu]
+
+/-- **C15_gen_refines_default**: with the default `SimpleNameGenerator` and no refusing tensor the general model
+is the model of parts B / B' (so every theorem about `fixModel` is a theorem about `fixModelX simpleGen`). -/
+theorem C15_gen_refines_default (w : TWorld) (tops : List Top) (hf : ∀ t, w.frozen t = false) :
+    (fixModelX simpleGen w [] tops).w.toWorld = (fixModel w.toWorld tops).1
+    ∧ (fixModelX simpleGen w [] tops).modified = (fixModel w.toWorld tops).2.1
+    ∧ (fixModelX simpleGen w [] tops).raised = (fixModel w.toWorld tops).2.2 :=
+  fixModelX_sim tops w [] hf
+
+/-- the constant generator `"c"` and the generator that answers the empty string -/
+def constGen (c : String) : NameGen := { v := fun _ _ => c, n := fun _ _ => c }
+
+def twOf (w : World) : TWorld := { toWorld := w, constOf := fun _ => none, tname := fun _ => none, frozen := fun _ => false }
+
+/-- **C15_gen_nonempty_necessary**: the hypothesis "the generator never answers the empty string" cannot be
+dropped: on the D31 world (`t, t, t_1, t` + the unnamed value 4 of the function) the generator that answers `""`
+leaves value 4 and nodes 3, 4 … with the empty name without raising; on the D30 world (an initializer that must be
+renamed) the setter's guard raises.  A *constant* generator is fine: `t, c, t_1, …` then `c_1`. -/
+theorem C15_gen_nonempty_necessary :
+    (fixModelX (constGen "") (twOf exW2) [] [exT2, exT3]).raised = false
+    ∧ (fixModelX (constGen "") (twOf exW2) [] [exT2, exT3]).w.vname 4 = some ""
+    ∧ (fixModelX (constGen "") (twOf exW) [] [exT]).raised = true
+    ∧ ((List.range 5).map (fixModelX (constGen "c") (twOf exW2) [] [exT2, exT3]).w.vname)
+        = [some "t", some "c", some "t_1", some "t", some "c"]
+    ∧ ((List.range 5).map (fixModelX (constGen "c") (twOf exW2) [] [exT2, exT3]).w.nname)
+        = [some "n", some "c", some "n_1", some "c", some "c"] := by
+  decide
+
+/-- two sibling subgraphs `1`, `2` of node 0; graph 2 has the initializers `k1` (value 1) and `k2` (value 2) and an
+input named `k2`; graph 1 uses value 1 next to its own `k1` (ill-scoped) -/
+def exWX : World :=
+  { vname := fun i => if i = 0 then some "k1" else if i = 1 then some "k1" else if i = 2 then some "k2"
+                      else if i = 3 then some "k2" else if i = 4 then some "o" else none
+    nname := fun i => if i = 0 then some "A" else if i = 1 then some "I1" else if i = 2 then some "I2" else none
+    initOf := fun i => if i = 1 then some 2 else if i = 2 then some 2 else none
+    dicts := fun g => if g = 2 then [("k1", 1), ("k2", 2)] else [] }
+def exTX : Top :=
+  { gid := 0, isGraph := true, ins := [], outs := [],
+    body := .node 0 [] [4] (.graph 1 true [] [] (.node 1 [some 1] [0] .nil .nil)
+                            (.graph 2 true [3] [] (.node 2 [] [] .nil .nil) .nil)) .nil }
+
+/-- **C15_gen_total_needs_scoping**: `C15_namefix_total` (no exception whatever the scoping) is a property of the
+default generator, whose `base_k` counters are global: a *constant* generator gives the bare name `c` to one
+initializer in the scope of the first sibling and to the other in the scope of the second, and the setter's guard
+raises — with the dictionaries still keyed by names (`C15_gen_ikey_preserved`). -/
+theorem C15_gen_total_needs_scoping :
+    scopedB exWX.inits exTX.tr [] [] = false
+    ∧ (fixModelX simpleGen (twOf exWX) [] [exTX]).raised = false
+    ∧ (fixModelX (constGen "c") (twOf exWX) [] [exTX]).raised = true
+    ∧ (fixModelX (constGen "c") (twOf exWX) [] [exTX]).w.dicts 2 = [("k2", 2), ("c", 1)] := by
+  decide
+
+/-- the D30 world with value 1 backed by tensor 0 (named `w`); `fz` = the tensor refuses a new name -/
+def exTWx (fz : Bool) : TWorld :=
+  { toWorld := exW, constOf := fun v => if v = 1 then some 0 else none, tname := fun _ => some "w", frozen := fun _ => fz }
+
+/-- a tensor that refuses its new name stops the pass in the middle: the value keeps its name and key (earlier
+renames would stay); a willing tensor follows its value -/
+example :
+    (fixModelX simpleGen (exTWx true) [] [exT]).raised = true
+    ∧ (fixModelX simpleGen (exTWx true) [] [exT]).w.dicts 0 = [("w", 1), ("w_1", 2)]
+    ∧ (fixModelX simpleGen (exTWx true) [] [exT]).w.tname 0 = some "w"
+    ∧ (fixModelX simpleGen (exTWx false) [] [exT]).raised = false
+    ∧ (fixModelX simpleGen (exTWx false) [] [exT]).w.tname 0 = some "w_2" := by
+  decide
+
+/-! ## values owned by no graph / shared between sibling graphs (outside the scoping rule)
+
+A value owned by no graph that is used in one graph only (and in graphs nested in it afterwards) satisfies
+`scopedB`, so all theorems apply to it.  A value (owned by no graph, or by one of the siblings) that is used in two
+*sibling* subgraphs does not: the pass records its name in the scope of the first sibling only, skips it in the
+second (`seen_values`), and a value of the second sibling that carries the same name is not renamed. -/
+
+/-- node 0 holds the sibling subgraphs 1 and 2; both use the free value 0 `x`; subgraph 2 also defines its own `x`
+(value 2) -/
+def exWS : World :=
+  { vname := fun i => if i = 0 then some "x" else if i = 1 then some "a" else if i = 2 then some "x" else if i = 3 then some "o" else none
+    nname := fun i => if i = 0 then some "A" else if i = 1 then some "I1" else if i = 2 then some "I2" else none
+    initOf := fun _ => none
+    dicts := fun _ => [] }
+def exTS : Top :=
+  { gid := 0, isGraph := true, ins := [], outs := [],
+    body := .node 0 [] [3] (.graph 1 true [] [] (.node 1 [some 0] [1] .nil .nil)
+                            (.graph 2 true [] [] (.node 2 [some 0] [2] .nil .nil) .nil)) .nil }
+/-- the same with the free value used in subgraph 2 only -/
+def exTS1 : Top :=
+  { gid := 0, isGraph := true, ins := [], outs := [],
+    body := .node 0 [] [3] (.graph 1 true [] [] (.node 1 [] [1] .nil .nil)
+                            (.graph 2 true [] [] (.node 2 [some 0] [2] .nil .nil) .nil)) .nil }
+
+/-- **C15_scoping_necessary**: the scoping hypothesis of `C15_namefix_post` cannot be dropped.  With the free value
+`x` shared by two sibling subgraphs (`scopedB = false`) the pass does not raise and leaves the second sibling with
+its own `x` next to the shared `x`; with the free value used in one subgraph only (`scopedB = true`) the two
+get different names (the subgraph's own outputs are named first, so the free value moves to `x_1`). -/
+theorem C15_scoping_necessary :
+    scopedB exWS.inits exTS.tr [] [] = false
+    ∧ (fixModel exWS [exTS]).2.2 = false
+    ∧ (fixModel exWS [exTS]).1.vname 0 = some "x" ∧ (fixModel exWS [exTS]).1.vname 2 = some "x"
+    ∧ scopedB exWS.inits exTS1.tr [] [] = true
+    ∧ (fixModel exWS [exTS1]).1.vname 0 = some "x_1" ∧ (fixModel exWS [exTS1]).1.vname 2 = some "x" := by
   decide
 
 end IrVerif.Names
